@@ -25,7 +25,7 @@ var kf *known.File
 
 func TestMain(m *testing.M) {
 	kf, _ = known.Load(ev.KnownFile())
-	rec.Rule("rapid state machine over a pool of <= 6 dep.Type and <= 6 version.AttrSet values: Add/SetAttr with every named key and arbitrary values (empty, spaces, quotes, backslashes, unicode), Clone into the pool, mutation of a clone or its original; after every step every pair/triple of the pool is checked against a map model (Equal <=> same flags and key/value pairs; Compare reflexive, antisymmetric, transitive, consistent with Equal; clones unaffected by later operations); text clause: every pool member written in the schema's documented syntax and parsed back through schema.ParseResolve / schema.New equals the original. One evaluation = one step (with all its comparisons) or one text round trip. Non-trivial: a set with >= 1 flag and >= 1 valued attribute that was cloned and then mutated on one side; for text, a value that needs quoting. Distinct = distinct history / distinct set text.")
+	rec.Rule("rapid state machine over a pool of <= 6 dep.Type and <= 6 version.AttrSet values: Add/SetAttr with every named key and arbitrary values (empty, spaces, quotes, backslashes, unicode), Clone into the pool, mutation of a clone or its original; after every step every pair/triple of the pool is checked against a map model (Equal <=> same flags and key/value pairs; Compare reflexive, antisymmetric, transitive, consistent with Equal; clones unaffected by later operations); text clause: every pool member written in the schema's documented syntax and parsed back through schema.ParseResolve / schema.New equals the original. One evaluation = one step (with all its comparisons) or one text round trip. Non-trivial: a set with >= 1 flag and >= 1 valued attribute that was cloned and then mutated on one side; for text, a value that needs quoting. Distinct = distinct history / distinct set text. After the first reading its result is modified and the same text read again: it must read the same.")
 	rec.Assume("values containing the schema's own delimiters (| # and, unquoted, newline/tab) are outside the text domain; counted as excluded_domain")
 	ev.Main(m, rec)
 }
